@@ -25,8 +25,8 @@ The theorems cover both directions (value: T1–T5, error: T6) and start from th
 `'` shorthand: T11, and a sign typed directly after a binary `+` / `-`: T12). T8–T10 relate definitions as coded to their
 documented formulas: `MIN` / `MAX` (T8), `ARGMIN` / `ARGMAX` (T9, T9'), `D` / `I` / `D2` (T10).
 
-The model is that of the code after the repairs 5676890 (`a/number`, `number/a` are single divisions, computed before the
-output feature is created; they used to go through a reciprocal) and b728412 (`ARGMIN` / `ARGMAX` take their first index on
+The model is that of the code after the repairs 5676890 / 2dd86ce (`a/number`, `number/a` are single divisions, coded like
+the other scalar operators; they used to go through a reciprocal) and b728412 (`ARGMIN` / `ARGMAX` take their first index on
 equality with the start value): T5 needs commutativity of `+` and `*` only, T9 holds for every vector that holds a number. -/
 namespace TV.C02
 open TV.Expr TV.Rpn
@@ -583,11 +583,13 @@ example : denoteM trEx (.bin '/' (.var ['a']) (.num ['2'])) = .ok (.vec [0, -1, 
     ∧ denote trEx (.bin '/' (.var ['a']) (.num ['2'])) = .ok [0, -1, 2]
     ∧ denoteM trEx (.bin '/' (.num ['8']) (.var ['a'])) = .ok (.vec [8, -4, 2])
     ∧ denote trEx (.bin '/' (.num ['8']) (.var ['a'])) = .ok [8, -4, 2] := ⟨by rfl, by rfl, by rfl, by rfl⟩
-/-- `2/a` with a zero in `a`: ZeroDivisionError from the division itself, nothing created (`c` is not stored, no temporary left) -/
+/-- `2/a` with a zero in `a`: ZeroDivisionError from the division itself; `c` is not stored and no temporary is left -/
 example : (operate (α := Int) ⟨2, [1, 2], [0, 0], [0, 0], [0, 1], [(['a'], [4, 0])]⟩ "c=2/a".toList)
     = (.error "err:zerodiv", ⟨2, [1, 2], [0, 0], [0, 0], [0, 1], [(['a'], [4, 0])]⟩) := by rfl
-/-- the operator object applied directly: `SCALAR_DIVIDER` by 0 raises before `c` is created (the computation comes first) -/
-example : opScal trEx '/' ['a'] 0 ['c'] = (.error "err:zerodiv", trEx) ∧ (opScal trEx '/' ['a'] 2 ['c']).1 = .ok [0, -1, 2]
+/-- the operator object applied directly: `SCALAR_DIVIDER` by 0 raises at the first observation, `c` having been created at 0
+(like every other scalar operator, fix 2dd86ce) -/
+example : opScal trEx '/' ['a'] 0 ['c'] = (.error "err:zerodiv", { trEx with feats := trEx.feats ++ [(['c'], [0, 0, 0])] })
+    ∧ (opScal trEx '/' ['a'] 2 ['c']).1 = .ok [0, -1, 2]
     ∧ (opScal trEx '/' ['a'] 2 ['c']).2.feats = trEx.feats ++ [(['c'], [0, -1, 2])] := ⟨by rfl, by rfl, by rfl⟩
 
 /-- T9 on the toy scalar (whose comparison is a strict order): the first of two equal minima / maxima -/
